@@ -2,6 +2,11 @@ import DC.Prelude.Hex
 import DC.Spec.PrecSpec
 import DC.Model.BufioIO
 import DC.Model.StmtLoop
+import DC.Spec.Tree
+import DC.Spec.Embed
+import DC.Model.ExplainSelect
+import DC.Model.Lexer
+import DC.Model.LitDriver
 
 /-! Dispatch table of the line-protocol driver. A handler gets the op and its arguments and
 answers `none` if the op is not its own. Unknown ops answer `bad-op` (never a default value). -/
@@ -11,7 +16,12 @@ def handlers : List (String → List String → Option String) := [
   fun op args => if op == "ping" then some ("pong " ++ " ".intercalate args) else none,
   DC.Bufio.IO.handle,
   DC.Spec.PrecSpec.handle,   -- c08
-  DC.Model.StmtLoop.handle   -- c16 (op `stmtloop`)
+  DC.Model.StmtLoop.handle,  -- c16 (op `stmtloop`)
+  DC.Spec.Tree.handle,       -- c04 (ops `tree`, `artefacts`)
+  DC.Spec.Embed.handle,      -- c07 (op `embed`)
+  DC.Model.ExplainSelect.handle, -- c04 (ops `selshape`, `selshapeinh`, `unionshape`)
+  DC.Lexer.handle,           -- c12/c13 (ops `lex`, `uni`)
+  DC.Model.LitDriver.handle  -- c09 (ops `c09num`, `c09str`, `c09float`, `c09nest`, `c09dec`)
 ]
 
 def dispatch (line : String) : String :=
